@@ -198,6 +198,9 @@ def R4_fee_manager_ports(run):
     for pr in PORTS:
         compare_port(run, "R4", pr["p"], pr["s"], keys=pr.get("keys", ALL), exempt=pr.get("exempt", ()))
     run.floor("R4", "ported pairs", len(PORTS), 15)
+    # the sibling comparison ignores casts; the widths of the intermediate products are checked separately (same rule as C14.R7)
+    from rules import C14
+    C14.check_widths(run, "R4", run.sdk, AFV_S, FRM_S, tag="sdk:")
     # is_major_swap: different 256-bit formulation; same shape: larger >= (smaller * price(threshold)) >> 64
     K = run.sdk
     fn = K.need_fn(AFV_S + "is_major_swap")
